@@ -51,7 +51,7 @@ def assemble(template_path):
         i += 1
         rewrites = []
         desugars, inlines, standins = [], [], []
-        while i < len(lines) and re.match(r"^\s*//@(\||loop\s+\d+\||loopbody\s+\d+\||loopbefore\s+\d+\||loopafter\s+\d+\||standin\||closure\||fordesugar\s+\d+\||inline_unwrap_or_else\|)", lines[i]):
+        while i < len(lines) and re.match(r"^\s*//@(\||loop\s+\d+\||loopbody\s+\d+\||loopbefore\s+\d+\||loopafter\s+\d+\||loophead\s+\d+\||standin\||closure\||fordesugar\s+\d+\||inline_unwrap_or_else\|)", lines[i]):
             cm = re.match(r"^\s*//@closure\|\s?(.*?)\s+=>\s+(.*)$", lines[i])
             if cm:
                 # a closure gets its contract: `|x| expr`  =>  `|x: T| -> (r: U) ensures .. { expr }`.  The closure's
@@ -78,6 +78,12 @@ def assemble(template_path):
             if pm:
                 # ghost statements placed immediately before the n-th loop
                 loopspecs.setdefault(1000 + int(pm.group(1)), []).append(pm.group(2))
+                i += 1
+                continue
+            hm = re.match(r"^\s*//@loophead\s+(\d+)\|\s?(.*)$", lines[i])
+            if hm:
+                # ghost statements at the very start of the n-th loop's body (before the `next()` of a desugared `for`)
+                loopspecs.setdefault(3000 + int(hm.group(1)), []).append(hm.group(2))
                 i += 1
                 continue
             am = re.match(r"^\s*//@loopafter\s+(\d+)\|\s?(.*)$", lines[i])
@@ -263,7 +269,7 @@ def splice_loops(body, loopspecs):
             n += 1
             if 1000 + n in loopspecs:
                 inserts.append((p, "\n    ".join(loopspecs[1000 + n]) + "\n    "))
-            if n in loopspecs or -n in loopspecs or 2000 + n in loopspecs:
+            if n in loopspecs or -n in loopspecs or 2000 + n in loopspecs or 3000 + n in loopspecs:
                 depth = 0
                 for j2, (k2, t2, p2) in enumerate(toks[idx + 1:]):
                     if k2 == "punct" and t2 in "([":
@@ -271,6 +277,8 @@ def splice_loops(body, loopspecs):
                     elif k2 == "punct" and t2 in ")]":
                         depth -= 1
                     elif k2 == "punct" and t2 == "{" and depth == 0:
+                        if 3000 + n in loopspecs:
+                            inserts.append((p2 + 1, "\n      " + "\n      ".join(loopspecs[3000 + n]) + "\n     "))
                         if -n in loopspecs:
                             # after the `let Some(PAT) = it.next() else { break; };` of a desugared `for`, when present
                             at = p2 + 1
